@@ -253,6 +253,38 @@ def install_hooks():
     Arr.snapshot = new_snapshot
 
 
+    old_get = Arr.get
+
+    def new_get(self, idx):
+        sc = CURRENT[0]
+        if sc is None:
+            return old_get(self, idx)
+        root = self.rootarr()
+        pending = []
+        s_ = sc
+        while s_ is not None:
+            pending = [e for e in s_.effects if e.root is root] + pending
+            s_ = s_.parent
+        if not pending:
+            return old_get(self, idx)
+        # read of an array that this generic iteration has (captured) writes to: forward the value stored in this iteration
+        bidx = list(idx) if self.root is None else self.tob(list(idx))
+        ctx = sc.it.ctx
+        for e in reversed(pending):
+            if e.kind != "store":
+                raise Unsupported("read of an array that is accumulated into in the same loop (line %d)" % e.lineno)
+            c = e.cond(bidx)
+            hit = b_and(e.guard, c)
+            if hit is True or (not isinstance(hit, bool) and ctx.valid(z(hit))):
+                return e.val(bidx)
+            if c is False or (not isinstance(c, bool) and ctx.valid(z3.Not(z(c)))):
+                continue
+            raise Unsupported("read of an array element that may have been written earlier in the same loop (line %d): loop-carried dependency not modelled" % e.lineno)
+        # not written by this iteration: other iterations must not write it either (else the value depends on the iteration order)
+        raise Unsupported("read of an array written elsewhere in the same loop (element not written by this iteration)")
+    Arr.get = new_get
+
+
 CURRENT = [None]
 
 
@@ -588,25 +620,26 @@ def generic_if(it, st, fr):
         scope.dead.append(c2)
         it.ctx.pc.append(z(b_not(c2)))
     merged = {}
+    MISSING = object()
     for name in set(e1) | set(e2):
         if end1 and not end2:
-            v = e2.get(name)
+            v = e2.get(name, MISSING)
         elif end2 and not end1:
-            v = e1.get(name)
+            v = e1.get(name, MISSING)
         else:
-            a, b = e1.get(name), e2.get(name)
+            a, b = e1.get(name, MISSING), e2.get(name, MISSING)
             if a is b:
                 v = a
+            elif a is MISSING or b is MISSING:
+                v = Poison("%s is assigned on one branch only" % name)
             elif a is not None and b is not None and is_scalar(a) and is_scalar(b):
                 v = ite(c1, a, b)
             elif isinstance(a, Arr) and isinstance(b, Arr) and a.ndim == b.ndim and all(dim_eq(p, q) is True for p, q in zip(a.shape, b.shape)):
                 sa, sb = a.snapshot(), b.snapshot()
                 v = Arr(list(a.shape), (lambda sa, sb, c1: (lambda idx: ite(c1, sa(idx), sb(idx))))(sa, sb, c1), a.dtype)
-            elif a is None or b is None:
-                v = Poison("%s is assigned on one branch only" % name)
             else:
                 v = Poison("%s holds different non-scalar values on the two branches" % name)
-        if v is not None:
+        if v is not MISSING:
             merged[name] = v
     fr.env.clear()
     fr.env.update(merged)
